@@ -222,6 +222,12 @@ Definition pad_deconv_f (signal pad_response : list float) : res (list float) :=
 Definition wire_deconv_f (signal wire_response : list float) : res (list float) :=
   ls_deconv_f signal wire_response (range_incl 0 1) (range_incl 3 12).
 
+(* "not negative" for binary64, on the IEEE specification side (SpecFloat): NaN, or sign bit clear
+   (+0, positive finite, +infinity); in particular not -0.  f_ge0_spec: NaN or 0 <= x. *)
+Definition sf_ge0 (x : spec_float) : Prop :=
+  match x with S754_nan => True | S754_zero s | S754_infinity s | S754_finite s _ _ => s = false end.
+Definition f_ge0 (x : float) : Prop := sf_ge0 (Prim2SF x).
+
 (* ------------------------------------------------------------------------------------------ *)
 (* exact instance: canonical rationals Qc (Leibniz equality, decidable order); no NaN, no rounding *)
 
